@@ -278,6 +278,11 @@ class CallGraph:
             # functools.partial(fn, ...)
             if (dotted(e.func) or "").split(".")[-1] == "partial" and e.args:
                 return self.callables_of(f, e.args[0], depth + 1)
+            # a copy of a list of callables: list(xs) / tuple(xs) / xs.copy()
+            if isinstance(e.func, ast.Name) and e.func.id in ("list", "tuple", "sorted", "reversed") and len(e.args) == 1:
+                return self.callables_of(f, e.args[0], depth + 1)
+            if isinstance(e.func, ast.Attribute) and e.func.attr == "copy" and not e.args:
+                return self.callables_of(f, e.func.value, depth + 1)
             return []
         if isinstance(e, ast.Attribute) and isinstance(e.value, ast.Name) and e.value.id in ("self", "cls") and f.cls is not None \
                 and f.params and f.params[0] == e.value.id:
@@ -296,6 +301,11 @@ class CallGraph:
                             out += self._param_callables(f, d.var, depth + 1)
                         elif d.kind in ("assign", "for") and d.value is not None:
                             out += self.callables_of(f, d.value, depth + 1)
+                    # callables appended to / extended into the local list
+                    for n_ in own_nodes(f.node):
+                        if isinstance(n_, ast.Call) and isinstance(n_.func, ast.Attribute) and n_.func.attr in ("append", "extend", "insert") \
+                                and isinstance(n_.func.value, ast.Name) and n_.func.value.id == e.id and n_.args:
+                            out += self.callables_of(f, n_.args[-1], depth + 1)
                     if out or any(d.kind != "import" and d.kind != "def" for d in defs):
                         return out
             r = p.resolve_expr(f.module, e, scope)
